@@ -95,6 +95,10 @@ def failing_blocks(k):
               [], 3, 'ValueError', 'exception'))
     B.append(('raise_with_stdout_replaced', ['>>> import io, sys', '>>> sys.stdout = io.StringIO(); t(%d); sys.stdout.close(); raise KeyError("gone")' % k], [], 1, 'KeyError', 'exception'))
     B.append(('traceback_want_mismatch', ['>>> boom(%d)' % k], ['Traceback (most recent call last):', 'KeyError: other'], 1, 'GotWantException', 'gotwant'))
+    # output with control characters a terminal would interpret (backspaces of a spinner, a lone carriage return, a bell): comparing and
+    # rendering the mismatch is a failure like any other
+    B.append(('wrong_output_backspaces', [">>> print(chr(8) + '/' + chr(8) * 3 + 'x', t(%d))" % k], ['wrong'], 1, 'GotWantException', 'gotwant'))
+    B.append(('wrong_output_bell_cr', [">>> print(chr(7) + 'a' + chr(13) + chr(8), t(%d))" % k], ['wrong', 'lines'], 1, 'GotWantException', 'gotwant'))
     # the documented exception TYPE is wrong: a failure under every setting, also when only the type is compared
     B.append(('traceback_wrong_type_ignore_detail', ['>>> # xdoctest: +IGNORE_EXCEPTION_DETAIL', '>>> boom(%d)' % k],
               ['Traceback (most recent call last):', 'KeyError: whatever the message'], 2, 'GotWantException', 'gotwant'))
